@@ -5,6 +5,7 @@ import Pep508.Model.ReqShow
 import Pep508.Model.Unnamed
 import Pep508.Model.ErrDisplay
 import Pep508.Model.Dnf
+import Pep508.Model.TopLevelExtra
 import Pep508.Model.Interner
 import Pep508.Model.InternerOps
 import Pep508.Model.InternerPy
@@ -267,6 +268,18 @@ def runDnf (args : List String) : String :=
     | some tr, some spell =>
       let d := toDnf spell tr
       if d.isEmpty then "empty" else " | ".intercalate (d.map showClause)
+    | _, _ => "bad-op"
+  | _ => "bad-op"
+
+/-- `tle <term> <spell>` ↦ the expression `top_level_extra()` returns, or `none` -/
+def runTle (args : List String) : String :=
+  match args with
+  | [t, sp] =>
+    match parseTerm t, parseSpell sp with
+    | some tr, some spell =>
+      match topLevelExtra spell tr with
+      | some e => showMExpr e
+      | none => "none"
     | _, _ => "bad-op"
   | _ => "bad-op"
 
